@@ -141,6 +141,29 @@ def addr_steps(chk, rules=None, rule_name=None):
                                 if n[0] == 'checked_sub overflows' and n[1] == 1 and sign < 0 and half == 'lower':
                                     reason = 'count > start = position(start)'
                     if reason is None:
+                        # however the code found out: on this path the target position start ± count*step is provably outside [0, 2^48)
+                        try:
+                            tgt = pos_aff(I, o.st, I.resub(o.st, b), half).add(Aff({('count', 0, 64): scale}, 0), sign)
+                            # a checked add / sub of exactly that quantity overflowed: it is >= 2^64 / below zero
+                            ovf_add = any(n[0] == 'checked_add overflows' and n[1] == 1 for n in o.st.notes)
+                            ovf_sub = any(n[0] == 'checked_sub overflows' and n[1] == 1 for n in o.st.notes)
+                            for nm, d in o.st.defs.items():
+                                if not d[2] and ((sign > 0 and ovf_add and nm.startswith('add#')) or (sign < 0 and ovf_sub and nm.startswith('sub#'))) and \
+                                        I.aff_equal(o.st, d[0], tgt):
+                                    reason = 'the checked %s of position(start) and count*step overflowed' % ('sum' if sign > 0 else 'difference')
+                                rg = o.st.rng.get(nm)
+                                if reason is None and d[2] and rg and I.aff_equal(o.st, d[0], tgt) and min(a for a, _ in rg) >= SPACE:
+                                    reason = 'the target position itself (%s) is at least 2^48 on this path' % nm
+                            tlo, thi = I.aff_range(o.st, tgt)
+                            if reason is not None:
+                                pass
+                            elif tlo >= SPACE:
+                                reason = 'position(start) + count*step >= 2^48 on this path (at least %#x)' % tlo
+                            elif thi < 0:
+                                reason = 'position(start) - count*step < 0 on this path'
+                        except Exception:
+                            pass
+                    if reason is None:
                         okn = False
                     why.append(reason)
                 chk.ob('exact-step', '%s: None only when the target position lies outside the 2^48 canonical addresses' % tagc, okn, 'None paths: %r' % (why,), fn_site(I, fn_), sample=why)
